@@ -5,6 +5,8 @@ import itertools
 import numpy as np
 from hypothesis import strategies as st
 
+from mv import hperm
+
 from mv import gen_atoms, model_atoms as M
 from mv.quiet import silenced
 from mv.runner import EnumPart, HypPart, Violation
@@ -236,9 +238,9 @@ def random_case(draw):
     if s["extra_atom_labels"] and o["extra_atom_labels"] and draw(st.booleans()):
         o["extra_atom_labels"] = list(reversed(gen_atoms.XLABELS["atom"][:len(o["extra_atom_labels"]) + 1]))[:len(o["extra_atom_labels"])]
     ns, no = len(s["pos"]), len(o["pos"])
-    k = draw(st.integers(0, min(ns, no)))
-    keys = list(draw(st.permutations(range(no))))[:k]
-    vals = list(draw(st.permutations(range(ns))))[:k]
+    k = draw(hperm.integers(0, min(ns, no)))
+    keys = list(draw(hperm.permutations(range(no))))[:k]
+    vals = list(draw(hperm.permutations(range(ns))))[:k]
     mp = {str(a): b for a, b in zip(keys, vals)}
     # make some existing terms coincide with mapped new terms (forwards, backwards, or in another order)
     if mp:
